@@ -5,7 +5,7 @@
 EXTENDS Integers, Sequences
 
 DefFw == [pid |-> "INT", at |-> "INT", dom |-> 0, mint |-> "NONE", caller |-> "NONE", tok |-> "NONE",
-          rcp |-> "NONE", hook |-> "NONE", gas |-> 0, maxfee |-> 0, meta |-> "NONE", to |-> "U", pt |-> 0]
+          rcp |-> "NONE", hook |-> "NONE", gas |-> 0, maxfee |-> 0, mfd |-> "uusdc", meta |-> "NONE", to |-> "U", pt |-> 0]
 DefG == [pp |-> <<>>, pcc |-> <<>>, pa |-> <<>>, amts |-> <<>>, cnts |-> <<>>, params |-> 0]
 DefQ == [kind |-> "", by |-> "", pid |-> "", limit |-> 0, walk |-> "", reverse |-> FALSE, countTotal |-> FALSE,
          sp |-> "", sc |-> "", dp |-> "", dc |-> "", denom |-> ""]
